@@ -8,7 +8,7 @@ ids="$@"; [ -z "$ids" ] && ids=$(ls seeded)
 for id in $ids; do
   d=seeded/$id
   prop=$(python3 -c "import json;print(json.load(open('$d/meta.json'))['property'])")
-  patch=$d/patch.diff; [ -f $d/patch-current-tree.diff ] && patch=$d/patch-current-tree.diff
+  patch=/verif/$d/patch.diff; [ -f $d/patch-current-tree.diff ] && patch=/verif/$d/patch-current-tree.diff
   if git -C /repo apply $patch 2>/dev/null; then
     s=$(date +%s); rm -rf replays/$prop
     ./check $prop quick > target/seed-$id.log 2>&1; rc=$?
